@@ -107,6 +107,18 @@ CancelResolveF(s, p) ==
            wq  |-> [s.wq EXCEPT ![e] = r[2]],
            pc  |-> GrantPc(s, p, r[3])]
 
+(* one critical section as guard + function (used by the trace spec for batches) *)
+CanF(s, a) ==
+  CASE a.op = "acq"      -> CanAcquire(s, a.p)
+    [] a.op = "rel"      -> CanRelease(s, a.p)
+    [] a.op = "cresolve" -> CanCancelResolve(s, a.p)
+    [] OTHER -> FALSE
+ApplyF(s, a) ==
+  CASE a.op = "acq"      -> AcquireF(s, a.p, a.k, a.m)
+    [] a.op = "rel"      -> ReleaseF(s, a.p)
+    [] a.op = "cresolve" -> CancelResolveF(s, a.p)
+    [] OTHER -> s
+
 Install(t) == ent' = t.ent /\ cur' = t.cur /\ wq' = t.wq /\ pc' = t.pc /\ req' = t.req /\ UNCHANGED ratio
 
 (* action records, shared with the Go harness *)
